@@ -142,9 +142,6 @@ package gorp
 //@   ensures  !__in(l.reverse, key)
 //@   ensures  forall k K :: k != key ==> __in(l.reverse, k) == old(__in(l.reverse, k)) && l.reverse[k] == old(l.reverse[k])
 //@   modifies l.forward, l.reverse
-//@   # proof step: with the key out of its bucket, the buckets are the inverse of reverse minus that key
-//@   hint_after "l.removeFromForward(key, oldValue)" forall v V, k K :: inB(l, v, k) ==> (k != key && __in(l.reverse, k) && l.reverse[k] == v)
-//@   hint_after "l.removeFromForward(key, oldValue)" forall v V, k K :: k != key && __in(l.reverse, k) && l.reverse[k] == v ==> inB(l, v, k)
 //@ # flushing a committed transaction's delta: committed state becomes old state overridden by the staged entries
 //@ func (l *LookupIndex[K, E, V]) flush(d *delta[K, V])
 //@   tparams K Key, E Entry[K], V comparable
